@@ -319,8 +319,8 @@ class _Run:
         if vsh == "raw":
             return b
         if vsh == "keyinst" and isinstance(key, type):
-            try:
-                return key.parse_obj(self.case["insts"][i][2])
+            try:  # from the normalised instance (raw input of a descendant schema need not convert)
+                return key.parse_obj(json.loads(obj.json()))
             except Exception:  # noqa: BLE001
                 return obj
         return obj
@@ -869,6 +869,11 @@ class _Run:
                     was_at[op[2]] = was_at.pop(src, set()) | ({src} if sub else set())
             if op[0] == "reopen":
                 was_at.clear()
+            if op[0] in ("copy", "move") and st != "ok":
+                src = op[1]
+                if any(h == src or h.startswith(src.rstrip("/") + "/") for h in prev_att):
+                    self.tags.add(op[0] + "-refused" + ("-ds" if prev_kind.get(src) == "d" else "-group") + "-with-metadata"
+                                  + ("-target-exists" if op[2] in prev_kind else ""))
             recs = (set(p for p, k, v in entries if p.startswith("/metador_container/schemas/") and p.count("/") == 3),
                     set(p for p, k, v in entries if p.startswith("/metador_container/packages/")))
             if prev_recs[0] - recs[0]:
@@ -1208,7 +1213,19 @@ def gen_history(rng, n_ops, driver, insts, held=True, nq=5, nfinal=24, obs=None,
         r = rng.random()
         nodes = sh.nodes()
         nonroot = [p for p in nodes if p != "/"]
-        if boundaries and rng.random() < 0.25:
+        motif = rng.random() if boundaries else 1.0
+        if 0.25 <= motif < 0.32:
+            # refused operation on annotated content (destination name is taken): nothing may change
+            withm = [p for p in nonroot if sh.meta.get(p)]
+            dsm = [p for p in withm if sh.kind[p] == "d"]
+            if withm:
+                src = rng.choice(dsm if dsm and rng.random() < 0.6 else withm)
+                taken = [p for p in nonroot if p != src and not p.startswith(src + "/")]
+                if taken:
+                    dst = rng.choice(taken)
+                    ops.append(["move", src, dst] if rng.random() < 0.6 else ["copy", src, dst, rng.random() < 0.3, rng.random() < 0.2])
+                    continue
+        if motif < 0.25:
             # annotated content was moved away and its old path is free: put it (or a copy) back
             back = pick_back(annotated_only=True)
             if back:
@@ -1305,10 +1322,10 @@ def gen_history(rng, n_ops, driver, insts, held=True, nq=5, nfinal=24, obs=None,
                 continue
             src = pick_src(nonroot) if rng.random() < 0.95 else sh.fresh_path(rng)
             q = rng.random()
-            back = pick_back()
+            back = pick_back() if q < 0.8 else None
             if back:
                 src, dst = back  # onto a path that was in use before (possibly by this very content)
-            elif q < 0.85:
+            elif q < 0.8:
                 dst = sh.fresh_path(rng)
             elif q < 0.95:
                 dst = rng.choice(nonroot)  # existing target -> refused
@@ -1324,10 +1341,13 @@ def gen_history(rng, n_ops, driver, insts, held=True, nq=5, nfinal=24, obs=None,
             if not nonroot:
                 continue
             src = pick_src(nonroot) if rng.random() < 0.95 else sh.fresh_path(rng)
-            dst = sh.fresh_path(rng) if rng.random() < 0.9 else rng.choice(nonroot)
-            back = pick_back()
-            if back:
-                src, dst = back
+            if rng.random() < 0.2:
+                dst = rng.choice(nonroot)  # name already taken -> refused (state must stay as it was)
+            else:
+                dst = sh.fresh_path(rng)
+                back = pick_back()
+                if back:
+                    src, dst = back
             if dst == src or dst.startswith(src + "/"):
                 continue  # never into own subtree (excluded by the property)
             ops.append(["move", src, dst])
